@@ -1591,6 +1591,10 @@ func (x *Exec) returnStmt(s *ast.ReturnStmt, st *State) {
 	switch {
 	case len(s.Results) == 0:
 		for _, r := range x.results {
+			if bx, isBx := st.vars[r].(Bx); isBx {
+				vals = append(vals, x.heapLoad(st, r.Type(), bx.P, ""))
+				continue
+			}
 			vals = append(vals, st.vars[r])
 		}
 	case len(s.Results) == len(x.results):
@@ -1612,6 +1616,11 @@ func (x *Exec) returnStmt(s *ast.ReturnStmt, st *State) {
 		return
 	}
 	for i, r := range x.results {
+		if bx, isBx := st.vars[r].(Bx); isBx {
+			// a named result whose address was taken lives in the heap
+			x.heapStoreStruct(st, r.Type(), bx.P, vals[i])
+			continue
+		}
 		st.vars[r] = vals[i]
 	}
 	if inl {
